@@ -31,6 +31,8 @@ __CPROVER_ensures(__CPROVER_return_value.has ==> ((__CPROVER_return_value.second
 /* ... and its bit k is the cell k places before the reported position, for every cell read (ghost position g_p) */
 __CPROVER_ensures((__CPROVER_return_value.has && g_p >= start && g_p <= __CPROVER_return_value.first && __CPROVER_return_value.first - g_p < 64) ==>
                   ((((__CPROVER_return_value.second >> (__CPROVER_return_value.first - g_p)) & 1) != 0) == CELL(self, g_p)))
+/* at least as many cells were read as the mask is wide */
+__CPROVER_ensures((__CPROVER_return_value.has && __CPROVER_return_value.first - start < 63) ==> (mask >> ((__CPROVER_return_value.first - start + 1) & 63)) == 0)
 /* a full 64-bit mask needs 64 cells */
 __CPROVER_ensures((__CPROVER_return_value.has && mask == 0xFFFFFFFFFFFFFFFFull) ==> __CPROVER_return_value.first >= start + 63)
 ;
@@ -83,5 +85,62 @@ __CPROVER_ensures(g_diag >= __CPROVER_old(g_diag) && g_diag <= __CPROVER_old(g_d
 __CPROVER_ensures(__CPROVER_return_value == (header[0] == id_address_mark && header[4] <= 3))
 __CPROVER_ensures(__CPROVER_return_value ==>
                   (address->cylinder == header[1] && address->head == header[2] && address->record == header[3] && *siz == (128 << header[4])))
+;
+
+/* ================= FM (track_fm.cc) ================================================================================ */
+struct opt_cd { _Bool has; unsigned char first, second; };      /* std::optional<std::pair<byte, byte>>: (clock, data) */
+struct opt_uint { _Bool has; unsigned int val; };
+
+/* FM: 16 cells c7 d7 ... c0 d0; read_byte returns the 8 clock cells and the 8 data cells, or nothing at the end */
+static struct opt_cd fm_read_byte(const struct BitStream *bits, size_t *start_)
+__CPROVER_requires(BS_OK(bits) && bits->first_ <= bits->raw_bit_size_ && __CPROVER_is_fresh(start_, sizeof(*start_)) && *start_ <= (1ul << 24))
+__CPROVER_assigns(*start_)
+__CPROVER_ensures(*start_ >= __CPROVER_old(*start_) && *start_ <= __CPROVER_old(*start_) + 16)
+__CPROVER_ensures(__CPROVER_return_value.has ==> (*start_ == __CPROVER_old(*start_) + 16 && CELL_IN(bits, *start_ - 1)))
+__CPROVER_ensures(__CPROVER_return_value.has ==>
+                  ((((__CPROVER_return_value.first >> (7 - g_bit)) & 1) != 0) == CELL(bits, __CPROVER_old(*start_) + 2 * g_bit) &&
+                   (((__CPROVER_return_value.second >> (7 - g_bit)) & 1) != 0) == CELL(bits, __CPROVER_old(*start_) + 2 * g_bit + 1)))
+;
+
+/* copy_fm_bytes: n bytes, each with the normal FM clock (all eight clock cells set), or failure */
+static bool copy_fm_bytes(const struct BitStream *bits, size_t *thisbit_, size_t n, struct decvec *out)
+__CPROVER_requires(BS_OK(bits) && bits->first_ <= bits->raw_bit_size_ && __CPROVER_is_fresh(thisbit_, sizeof(*thisbit_)) && DECVEC_OK(out))
+__CPROVER_requires(*thisbit_ <= (1ul << 20) && n <= DECVEC_CAP && out->n + n <= DECVEC_CAP && g_diag < 100)
+__CPROVER_assigns(*thisbit_, out->n, __CPROVER_object_whole(h_crc_data), g_diag)
+__CPROVER_ensures(*thisbit_ >= __CPROVER_old(*thisbit_) && *thisbit_ <= __CPROVER_old(*thisbit_) + 16 * n)
+__CPROVER_ensures(out->n >= __CPROVER_old(out->n) && out->n <= __CPROVER_old(out->n) + n)
+__CPROVER_ensures(g_diag >= __CPROVER_old(g_diag) && g_diag <= __CPROVER_old(g_diag) + 1)
+__CPROVER_ensures(__CPROVER_return_value ==> (out->n == __CPROVER_old(out->n) + n && *thisbit_ == __CPROVER_old(*thisbit_) + 16 * n))
+__CPROVER_ensures((__CPROVER_return_value && g_m < n) ==>
+                  ((((h_vec_store[__CPROVER_old(out->n) + g_m] >> (7 - g_bit)) & 1) != 0) == CELL(bits, __CPROVER_old(*thisbit_) + 16 * g_m + 2 * g_bit + 1) &&
+                   CELL(bits, __CPROVER_old(*thisbit_) + 16 * g_m + 2 * g_bit)))
+__CPROVER_ensures(!__CPROVER_return_value ==> g_diag > __CPROVER_old(g_diag))
+;
+
+/* get_crc: CRC-16/CCITT from 0xFFFF over the vector (stream segment starting at offset 3 of h_crc_data; the table is
+   filled from there by the harness of the enforcing job; left out where the contract replaces a call) */
+static unsigned long fm_get_crc(const struct decvec *data)
+__CPROVER_requires(__CPROVER_is_fresh(data, sizeof(*data)) && data->n <= CRC_MAXLEN - 3)
+#ifndef VERIF_CRC_ABSTRACT
+__CPROVER_requires(h_crc_pref[3] == 0xFFFF)
+#endif
+__CPROVER_assigns(__CPROVER_object_whole(h_inner))
+#ifndef VERIF_CRC_ABSTRACT
+__CPROVER_ensures(__CPROVER_return_value == h_crc_pref[3 + data->n])
+#endif
+;
+
+/* find_record_address_mark: the next data (F56F) or deleted-data (F56A) mark preceded by two FM zero bytes */
+static struct opt_uint fm_find_record_address_mark(size_t *thisbit_, const struct BitStream *bits, size_t bits_avail)
+__CPROVER_requires(BS_OK(bits) && bits->first_ <= bits->raw_bit_size_ && __CPROVER_is_fresh(thisbit_, sizeof(*thisbit_)))
+__CPROVER_requires(*thisbit_ <= (1ul << 20) && bits_avail <= 8 * TRACK_BYTES)
+__CPROVER_assigns(*thisbit_)
+__CPROVER_ensures(*thisbit_ >= __CPROVER_old(*thisbit_) && (*thisbit_ == __CPROVER_old(*thisbit_) || *thisbit_ <= 8 * TRACK_BYTES))
+__CPROVER_ensures(__CPROVER_return_value.has ==>
+                  ((__CPROVER_return_value.val == 0xF56A || __CPROVER_return_value.val == 0xF56F) &&
+                   *thisbit_ > __CPROVER_old(*thisbit_) && CELL_IN(bits, *thisbit_ - 1)))
+/* the 16 cells that end just before the new position are that mark (ghost cell g_p) */
+__CPROVER_ensures((__CPROVER_return_value.has && g_p < *thisbit_ && *thisbit_ - 1 - g_p < 16 && g_p >= __CPROVER_old(*thisbit_)) ==>
+                  ((((__CPROVER_return_value.val >> (*thisbit_ - 1 - g_p)) & 1) != 0) == CELL(bits, g_p)))
 ;
 #endif
